@@ -45,7 +45,8 @@ func prelude(c *caseRun, h uint32) []*op {
 
 var corpus = []corpusCase{
 	{
-		// DESIGN §6 item 13: blockAccount of a candidate's own (NEO-less) account mid-epoch, restart of B after it.
+		// DESIGN §6 item 13 (fixed by d4da6a2, kept as regression case): blockAccount of a candidate's own
+		// (NEO-less) account mid-epoch, restart of B after it.
 		name: "block-candidate-then-restart", csize: 2, vcount: 1, extra: 2, blocks: 11,
 		gen: func(c *caseRun, h uint32) []*op {
 			if h <= 3 {
